@@ -8,6 +8,11 @@ CLAIMED = {
    note="Assumed, not proved: etcd/raft's own safety under these obligations; message faults, multi-replica histories and convergence are outside a sequential contract proof. The WAL observers used by the freshness test (InitialState/Snapshot/LastIndex) are assumed contracts here (C06 is about the store).",
    tech="contract-based typestate verification (ghost state + call hooks) against an assumed dependency contract, SMT",
    ref="DESIGN.md §4 C05"),
+ "C01": dict(
+   text="Proof (unbounded over histories, by per-operation contracts) of the entry-point clauses: Insert, Remove and Load keep 'a non-nil entry point is never a tombstone' and 'the entry point is nil only if nothing is stored' (anyVertex returns a stored vertex or nil exactly on an empty index), a successful Insert leaves an entry point; and of the search-path clauses: the greedy descent moves only to neighbours that are not tombstones and carries the true distance, Search hands a live vertex to the beam search, every item that enters the beam (searchLevel, heuristic selection) is created with exactly Distance(space, query, its vector) and is not a tombstone at that moment, Search returns at most k items and never (nil, nil); the merge across partitions is ascending and at most k (shared with C09). PLUS a BOUNDED stand-in, labelled as such and not counted as proved, for what depends on the beam's contents (returned items are stored with current metadata and true score, ascending, unique, non-empty answers): exhaustive histories up to 4 (thorough 5) operations and randomised large histories around the entry point.",
+   note="Not proved: that what leaves the priority queues is what entered them (multiset preservation is not part of the C19 queue contracts), hence uniqueness, per-index ascending order and 'score belongs to the returned id' are bounded only; 'not a tombstone' is proved, 'currently stored' needs the graph invariant (a linked, non-tombstoned vertex is stored) which is not under contract; panic-freedom of the graph code is unclaimed; the entry-point invariants are inductive over operations (NewHnsw starts with nil entry point and empty shards - by inspection), not re-checked at call sites; sequential semantics; NaN scores excluded by the float-order assumption.",
+   tech="contract-based deductive verification (entry-point invariants, call hooks on beam item creation, loop invariants over map iteration) + a labelled bounded stand-in for beam-content clauses",
+   ref="DESIGN.md §4 C01"),
  "C06": dict(
    text="Proof (all group ids, all indices, 64-bit vectors) of the key layout the store's isolation and ordering rest on: parseIndex(entryKey(i)) = i, the first 16 bytes of an entry key and bytes 2..17 of the hard-state/snapshot keys are the group id, lengths 24/18/18, 'hs' vs 'ss' tags, and the lemma that a key carrying the id bytes of two groups belongs to one group; plus the snapshot-install protocol of Save as typestate on every path: the stored log is wiped before the marker entry is written, entries of the same Ready are written after it, the cached last index is reset to the snapshot index. PLUS a BOUNDED stand-in, labelled as such and not counted as proved: differential comparison of every observer (FirstIndex, LastIndex, Term, Entries under three size limits, Snapshot, InitialState) against etcd/raft MemoryStorage over all legal call sequences up to length 4 (thorough: 6) incl. conflicting overwrites, installs inside/beyond the log, compaction, reopen with cold cache, a neighbour group in the same database, and DeleteGroup followed by re-creation.",
    note="Badger itself (transactions, write batches applying operations in order, prefix iteration) is outside the contract language and assumed; that is why equivalence with the reference storage is bounded, not proved. writeEntries/writeSnapshot/deleteEntries* are assumed contracts inside the Save proof. Order-preservation of big-endian keys under bytes.Compare is not machine-checked. Theoretical observation (not a violation of anything the code can produce): an entry prefix scan of a group whose id starts with the bytes 'hs'/'ss' followed by 14 bytes of another group's id would also meet that group's 18-byte key; ids are random UUIDs.",
